@@ -57,6 +57,14 @@ pub struct KnownFinding {
     pub status: String, // "open" | "fixed"
     pub signature: String,
     pub summary: String,
+    /// other properties whose checks meet the same defect (same signature)
+    pub also: Vec<String>,
+}
+
+impl KnownFinding {
+    pub fn applies_to(&self, prop: &str) -> bool {
+        self.property == prop || self.also.iter().any(|p| p == prop)
+    }
 }
 
 const DISTINCT_CAP: usize = 8_000_000;
@@ -216,6 +224,7 @@ pub fn load_known_findings() -> Vec<KnownFinding> {
             status: e["status"].as_str().unwrap_or("").to_string(),
             signature: e["signature"].as_str().unwrap_or("").to_string(),
             summary: e["summary"].as_str().unwrap_or("").to_string(),
+            also: e["also_seen_by"].as_array().map(|a| a.iter().filter_map(|x| x.as_str().map(|s| s.to_string())).collect()).unwrap_or_default(),
         });
     }
     out
@@ -265,7 +274,7 @@ impl Ctx {
 
     /// is this signature an open known finding of this property?
     pub fn is_known_open(&self, signature: &str) -> bool {
-        self.known.iter().any(|k| k.property == self.id && k.status == "open" && k.signature == signature)
+        self.known.iter().any(|k| k.applies_to(&self.id) && k.status == "open" && k.signature == signature)
     }
 
     /// Report a failed case. Returns true if it was a *new* violation (not on the known list).
@@ -310,7 +319,7 @@ impl Ctx {
     pub fn finish(&self) -> i32 {
         let stats = std::mem::take(&mut *self.stats.lock().unwrap());
         let kh = self.known_hits.lock().unwrap();
-        for k in self.known.iter().filter(|k| k.property == self.id && k.status == "open") {
+        for k in self.known.iter().filter(|k| k.applies_to(&self.id) && k.status == "open") {
             if let Some((n, msg)) = kh.get(&k.signature) {
                 let m: String = msg.chars().take(200).collect();
                 println!(
